@@ -105,8 +105,7 @@ def run(ctx):
                          "DoneStrict holds on the algorithm model (the design-level form of the findings is gone)"
     casef = os.path.join(wdir, "cases.ndjson")
     obsf = os.path.join(wdir, "obs.ndjson")
-    vlib.write_ndjson(casef, cases)
-    vlib.run_harness(vh, ["pip", tablesf, casef, obsf], timeout=3000)
+    vlib.run_harness_split(vh, "pip", tablesf, cases, casef, obsf, nparts=1 if ctx.replay else 6)
     states, gen, rej, lines = vlib.tlc_chunks("PipTrace", os.path.join(vlib.SPEC, "PipTrace.cfg"), wdir, obsf, 1300 if ctx.tier == "quick" else 4000,
                                               "PipTrace", parallel=4, workers=4)
     verdict = vlib.Verdict(pid)
@@ -123,6 +122,9 @@ def run(ctx):
             gerr += 1
         else:
             err += 1
+    abandoned = sum(1 for ln in lines if "did not return within" in ln)
+    if abandoned:
+        print("NOTE: %d resolutions did not return within 60 s and were abandoned (a matter for C04, totality; not judged here)" % abandoned)
     model_diff = []
     for idx, x in rej:
         if x["law"].endswith("algorithm-model"):
@@ -161,7 +163,7 @@ def run(ctx):
                    "graph-level error and %d a resolver error (neither judged: the property is conditional); %d edges were not declared by the selected "
                    "version of their source (informational, outside C08's wording)" % (gerr, err, info),
            "samples": [{"root": s["root"], "packages": len(s["universe"]), "graph": s["graph"]}],
-           "known_findings_hit": {k: v[0] for k, v in verdict.hits.items()}, "spec_divergence_info": info, "exhaustive": False,
+           "resolutions_abandoned_after_60s": abandoned, "known_findings_hit": {k: v[0] for k, v in verdict.hits.items()}, "spec_divergence_info": info, "exhaustive": False,
            "algorithm_model": {"family_universes": nmodel, "states": pr_states, "real_resolver_differs_on": len(model_diff), "c08_without_deviations_on_the_model": design_cex}}
     vlib.write_evidence(pid, ctx.tier, ctx.seed, "model_checking", cov, time.time() - t0, violations=len(verdict.violations),
                         assumptions=["TLC 1.8.0", "PEP 440 order and specifier semantics from Order.tla / Ranges.tla", "marker truth from PipModel!MEval over the "
